@@ -52,7 +52,7 @@ pub proof fn lemma_otx_wf<B: RequestBound + ?Sized>(ot: Seq<InterferingTask<B>>)
 
 /// the observation of the step streams covers every offset the search can reach (and the eager reading of the shift does not overflow)
 pub open spec fn pre_steps_ot<B: RequestSteps + ?Sized>(ot: &InterferingTask<B>, dl: int, max: int, n: int) -> bool {
-    ot.rbf.rsteps_ok(n) && ot.rbf.rsteps_hz(n) >= max + dl && ot.rbf.rsteps_hz(n) + ot.deadline.v() <= u64::MAX
+    ot.rbf.rsteps_ok(n) && ot.rbf.rsteps_hz(n) >= max + dl && ot.rbf.rsteps_ub(n) + ot.deadline.v() <= u64::MAX
 }
 pub open spec fn pre_steps<A: RequestSteps + ?Sized, B: RequestSteps + ?Sized>(tua: &TaskUnderAnalysis<A>, ot: Seq<InterferingTask<B>>, limit: int, n: int) -> bool {
     &&& tua.rbf.rsteps_ok(n) && tua.rbf.rsteps_hz(n) >= limit
@@ -217,7 +217,7 @@ where
 //@-
     let search_space = /*@R21: other_tasks
         .iter()
-        .map( @*/VfStream::kmerge_map(other_tasks, /*@.*/|ot/*+*/: &InterferingTask<RBF2>/*-*/| /*+*/-> (r: VfStream<Offset>)
+        .map( @*/VfStream::<Offset>::kmerge_map(other_tasks, /*@.*/|ot/*+*/: &InterferingTask<RBF2>/*-*/| /*+*/-> (r: VfStream<Offset>)
             requires ot.rbf.wf(), pre_steps_ot(ot, tua.deadline.v(), max_offset.v(), vf_n as int)
             ensures forall |a: int| #[trigger] off_has(r.0@, a) <==> shifted_in(rbf_fn(ot.rbf), ot.deadline.v(), tua.deadline.v(), max_offset.v(), a)
         /*-*/{ /*@probe*/
@@ -234,11 +234,11 @@ where
                 }/*+*/, Ghost(sh(ot.deadline.v(), tua.deadline.v()))/*-*/)
                 .take_while(|A/*+*/: &Offset/*-*/| /*+*/-> (r: bool) ensures r == (A.v() < max_offset.v()) { /*@probe*/ /*-*/*A < max_offset/*+*/ }, Ghost(|A: Offset| A.v() < max_offset.v())/*-*/)/*+*/;
             proof {
-                let fo = rbf_fn(ot.rbf); let hzo = ot.rbf.rsteps_hz(vf_n as int);
+                let fo = rbf_fn(ot.rbf); let hzo = ot.rbf.rsteps_hz(vf_n as int); let ubo = ot.rbf.rsteps_ub(vf_n as int);
                 let (dlo, dl, mxo) = (ot.deadline.v(), tua.deadline.v(), max_offset.v());
-                assert(exists |o: Seq<Offset>| #[trigger] offsets_exact(o, fo, hzo) && tw_of(vf_r.0@, o.map_values(sh(dlo, dl)), mxo));
-                let o = choose |o: Seq<Offset>| #[trigger] offsets_exact(o, fo, hzo) && tw_of(vf_r.0@, o.map_values(sh(dlo, dl)), mxo);
-                lemma_shifted_tw_set(o, fo, hzo, dlo, dl, mxo, vf_r.0@);
+                assert(exists |o: Seq<Offset>| #[trigger] offsets_exact(o, fo, hzo) && off_lt(o, ubo) && tw_of(vf_r.0@, o.map_values(sh(dlo, dl)), mxo));
+                let o = choose |o: Seq<Offset>| #[trigger] offsets_exact(o, fo, hzo) && off_lt(o, ubo) && tw_of(vf_r.0@, o.map_values(sh(dlo, dl)), mxo);
+                lemma_shifted_tw_set(o, fo, hzo, ubo, dlo, dl, mxo, vf_r.0@);
             }
             vf_r/*-*/
         }/*@R21: )
